@@ -510,13 +510,16 @@ func (t tFaulty) Tags() ([]PointerTag, error) {
 			{Pointer: "/missing", Classification: SecretClassification, Filter: RedactOperation},
 			{Pointer: "/token", Classification: SecretClassification, Filter: RedactOperation},
 		}, nil
+	case 3:
+		// a pointer that walks through a value that is not a container
+		return []PointerTag{{Pointer: "/other/inner", Classification: SecretClassification, Filter: RedactOperation}}, nil
 	}
 	return []PointerTag{{Pointer: "token", Classification: SecretClassification, Filter: RedactOperation}}, nil
 }
 
 func H_C09_taggable_faults() {
 	c := symEnv()
-	tFaultyMode = symLen(0, 2)
+	tFaultyMode = symLen(0, 3)
 	verifNoteInt("mode", tFaultyMode)
 	a, b := nondetString(), nondetString()
 	in := tFaulty{"token": a, "other": b}
